@@ -216,17 +216,38 @@ def collection_targets(flavour):
     return t
 
 
+def lambda_targets(flavour):
+    """[(entry_index, slot)] for every visible Lambda-typed parameter: the
+    value a lambda RETURNS is another way a lazy sequence reaches a library
+    function."""
+    key = ('ltargets', flavour)
+    t = _cache.get(key)
+    if t is None:
+        t = []
+        for ei, e in enumerate(inventory(flavour)):
+            if e['name'] in SKIP_NAMES:
+                continue
+            for i, p in enumerate(e['positional']):
+                if p['cls'] == 'lambda':
+                    t.append((ei, ['pos', i]))
+            for p in e['kwonly']:
+                if p['cls'] == 'lambda':
+                    t.append((ei, ['kw', p['alias']]))
+        _cache[key] = t
+    return t
+
+
 # ---------------------------------------------------------------------------
 # filling the other parameters
 # ---------------------------------------------------------------------------
 
 LAMBDAS_BY_NAME = {
     'predicate': ['true', '$ != null', 'false', '$ = $'],
-    'producer': ['$ + 1', '[$]', '$'],
-    'selector': ['$', '[$, $]', 'true'],
+    'producer': ['$ + 1', '$', '1'],
+    'selector': ['$', 'true', '1'],
     'key_selector': ['$', 'true'],
     'value_selector': ['$', '1'],
-    'aggregator': ['$', '[$[0], 1]'],
+    'aggregator': ['$', '1'],
     'list_merger': ['$1', '$2'],
     'item_merger': ['$1', '$2'],
     'args': ['$', 'true'],
@@ -369,6 +390,9 @@ def build_arg(flavour, a):
     if k == 'rule':
         return X.MappingRuleExpression(X.KeywordConstant(a[1]),
                                        build_arg(flavour, a[2]))
+    if k == 'rulex':
+        return X.MappingRuleExpression(build_arg(flavour, a[1]),
+                                       build_arg(flavour, a[2]))
     if k == 'lam':
         return parse_lambda(flavour, a[1])
     if k == 'call':
@@ -411,6 +435,8 @@ def describe(spec):
             return x[1]
         if k == 'rule':
             return '%s => %s' % (x[1], a(x[2]))
+        if k == 'rulex':
+            return '%s => %s' % (a(x[1]), a(x[2]))
         if k == 'lam':
             return '{%s}' % x[1]
         if k == 'call':
